@@ -249,7 +249,7 @@ impl Suite for Pred {
             out.obs.push("bad-input".into());
             return out;
         }
-        let cfg = Config { layers: vec![Filt::All], global: None, pass: vec![], per_layer: false };
+        let cfg = Config { layers: vec![Filt::All], global: None, pass: vec![], per_layer: false, nested: false };
         let (storages, panicked) = run_capture(&prog, &cfg);
         if panicked {
             out.obs.push("panic".into());
